@@ -2,6 +2,7 @@ package go_clipper2
 
 import (
 	"math"
+	"math/bits"
 )
 
 const (
@@ -14,9 +15,63 @@ const (
 	defaultMinimumEdgeLength = 0.1
 )
 
+// int128 is a signed 128-bit integer (two's complement, hi:lo); it holds the
+// exact product of two int64 values and the sum/difference of two such products.
+type int128 struct {
+	hi int64
+	lo uint64
+}
+
+// mulInt64 returns the exact product a*b.
+func mulInt64(a, b int64) int128 {
+	hi, lo := bits.Mul64(uint64(a), uint64(b))
+	if a < 0 {
+		hi -= uint64(b)
+	}
+	if b < 0 {
+		hi -= uint64(a)
+	}
+	return int128{hi: int64(hi), lo: lo}
+}
+
+func (x int128) add(y int128) int128 {
+	lo, carry := bits.Add64(x.lo, y.lo, 0)
+	hi, _ := bits.Add64(uint64(x.hi), uint64(y.hi), carry)
+	return int128{hi: int64(hi), lo: lo}
+}
+
+func (x int128) sub(y int128) int128 {
+	lo, borrow := bits.Sub64(x.lo, y.lo, 0)
+	hi, _ := bits.Sub64(uint64(x.hi), uint64(y.hi), borrow)
+	return int128{hi: int64(hi), lo: lo}
+}
+
+func (x int128) isZero() bool {
+	return x.hi == 0 && x.lo == 0
+}
+
+// toFloat64 converts to float64; sign and zero-ness are exact, and the value
+// is exact whenever its magnitude is below 2^53.
+func (x int128) toFloat64() float64 {
+	hi, lo := uint64(x.hi), x.lo
+	neg := x.hi < 0
+	if neg {
+		lo = ^lo + 1
+		hi = ^hi
+		if lo == 0 {
+			hi++
+		}
+	}
+	f := float64(hi)*18446744073709551616.0 + float64(lo)
+	if neg {
+		return -f
+	}
+	return f
+}
+
 // CrossProduct for three Point64 (pt1->pt2 x pt2->pt3)
 func CrossProduct(pt1, pt2, pt3 Point64) float64 {
-	return float64((pt2.X-pt1.X)*(pt3.Y-pt2.Y) - (pt2.Y-pt1.Y)*(pt3.X-pt2.X))
+	return mulInt64(pt2.X-pt1.X, pt3.Y-pt2.Y).sub(mulInt64(pt2.Y-pt1.Y, pt3.X-pt2.X)).toFloat64()
 }
 
 func checkPrecision(precision int) {
@@ -59,10 +114,10 @@ func multiplyUInt64(a, b uint64) UInt128Struct {
 
 // productsAreEqual returns true iff a*b == c*d (exactly) using 128-bit intermediate
 func productsAreEqual(a, b, c, d int64) bool {
-	absA := uint64(math.Abs(float64(a)))
-	absB := uint64(math.Abs(float64(b)))
-	absC := uint64(math.Abs(float64(c)))
-	absD := uint64(math.Abs(float64(d)))
+	absA := uint64(absInt(a))
+	absB := uint64(absInt(b))
+	absC := uint64(absInt(c))
+	absD := uint64(absInt(d))
 
 	mulAB := multiplyUInt64(absA, absB)
 	mulCD := multiplyUInt64(absC, absD)
@@ -84,7 +139,7 @@ func isCollinear(pt1, sharedPt, pt2 Point64) bool {
 }
 
 func dotProduct64(pt1, pt2, pt3 Point64) float64 {
-	return float64((pt2.X-pt1.X)*(pt3.X-pt2.X) + (pt2.Y-pt1.Y)*(pt3.Y-pt2.Y))
+	return mulInt64(pt2.X-pt1.X, pt3.X-pt2.X).add(mulInt64(pt2.Y-pt1.Y, pt3.Y-pt2.Y)).toFloat64()
 }
 
 func crossProductD(vec1, vec2 PointD) float64 {
@@ -113,13 +168,13 @@ func getSegmentIntersectPt(ln1a, ln1b, ln2a, ln2b Point64) (Point64, bool) {
 	dx1 := ln1b.X - ln1a.X
 	dy2 := ln2b.Y - ln2a.Y
 	dx2 := ln2b.X - ln2a.X
-	det := dy1*dx2 - dy2*dx1
+	det := mulInt64(dy1, dx2).sub(mulInt64(dy2, dx1))
 	var ip Point64
-	if det == 0 {
+	if det.isZero() {
 		return ip, false
 	}
 
-	t := float64(((ln1a.X-ln2a.X)*dy2)-((ln1a.Y-ln2a.Y)*dx2)) / float64(det)
+	t := mulInt64(ln1a.X-ln2a.X, dy2).sub(mulInt64(ln1a.Y-ln2a.Y, dx2)).toFloat64() / det.toFloat64()
 	if t <= 0 {
 		ip = ln1a
 	} else if t >= 1 {
